@@ -349,7 +349,7 @@ func cmdCheck(args []string) int {
 			}
 			continue
 		}
-		if specMentions(e.specs[k], *prop) || *prop == "C19" {
+		if specMentions(e.specs[k], *prop) || *prop == "C19" || *prop == "C20" {
 			keys = append(keys, k)
 		}
 	}
@@ -385,6 +385,9 @@ func cmdCheck(args []string) int {
 			obls = append(obls, o)
 		case *prop == "C19":
 			// C19 is the safety sweep: it has no functional premises beyond its own obligations
+		case *prop == "C20" && !specMentions(e.specs[o.Func], "C20"):
+			// C20 sweeps every function for unsummarised range-over-map loops (kind map-order, tagged C20); the functional
+			// premises are taken only from the functions that carry C20 clauses
 		case premiseKind[o.Kind] && (roots[o.Func] || callees[o.Func]):
 			o.Props = append(append([]string(nil), o.Props...), *prop)
 			obls = append(obls, o)
